@@ -92,6 +92,14 @@ def judge_case(res, exprs, k, rng, hits=None):
         for r in res.values():
             r.count("unverifiable_unknown_term")
         res["C04"].violation("uninterpretable-type", f"{exprs} k={k}: {merged!r}", wit)
+        # what sits inside a generic this reference does not interpret still counts against the limit
+        for t in [term] + [RT.to_rt(x) for x in types]:
+            for node in RT.td_nodes(t):
+                n = len(node[1]) + len(node[2])
+                if k == 0:
+                    res["C06"].violation("typeddict-with-limit-zero", f"{exprs} k=0: {RT.show(t)}", wit)
+                elif n > k:
+                    res["C06"].violation("typeddict-over-limit", f"{exprs} k={k}: {n} keys in {RT.show(t)}", wit)
         return
     shp = RT.shape(term)
     # ---- C04 admission
